@@ -56,7 +56,11 @@ MostAlignedType *stoAlloc(unsigned code, ULong size)
 # ifdef NATIVE_REPLAY
 		if (size > sizeof(struct bint)) return (MostAlignedType *) malloc(size);
 # endif
+# ifdef C11_RAW_ALLOC   /* word-buffer objects: Placev(b)[-1] is then the platform's actual word (see iintShift_1d) */
+		b = (struct bint *) (unsigned long *) malloc(sizeof(unsigned long[sizeof(struct bint) / sizeof(unsigned long)]));
+# else
 		b = (struct bint *) malloc(sizeof(struct bint));     /* a CONSTANT size: the object has the declared type */
+# endif
 # ifndef NATIVE_REPLAY
 		__CPROVER_assume(b != 0);
 # endif
